@@ -20,7 +20,7 @@ tail -3 $out/log.txt
 python3 - <<P
 import json,glob,re
 m=json.load(open('$out/meta.json'))
-known={'duplicate-column-names','filteredapply-columnname-copy','eval-missing-column-named-like-a-temporary'}
+known={'duplicate-column-names','filteredapply-columnname-copy','eval-missing-column-named-like-a-temporary','filteredapply-enum-toupper'}
 f=[x for x in (m.get('impl_failures') or []) if x.get('class') not in known]
 print('impl_failures (not known classes):',len(f),' broken_ties:',m.get('broken_ties'))
 for x in f[:8]: print('FAIL',json.dumps(x)[:700])
@@ -33,7 +33,7 @@ for l in open('$out/cases.jsonl'):
     try:
         c=json.loads(l); cases[c.get('id')]=c
     except Exception: pass
-known={'duplicate-column-names','filteredapply-columnname-copy','eval-missing-column-named-like-a-temporary'}
+known={'duplicate-column-names','filteredapply-columnname-copy','eval-missing-column-named-like-a-temporary','filteredapply-enum-toupper'}
 n=0
 for o in sorted(glob.glob('$out/shard_*.v.out')):
     t=' '.join(open(o).read().split())
